@@ -58,7 +58,7 @@ Fixpoint lz4_cycle (n : nat) (pat cur : bytes) (racc : bytes) : bytes :=
            end
   end.
 Definition lz4_copy (n : nat) (off : nat) (racc : bytes) : option bytes :=
-  let pat := rev (firstn off racc) in
+  let pat := rev_append (firstn off racc) [] in
   if Nat.ltb (length pat) off then None            (* offset reaches before the start of the output *)
   else Some (lz4_cycle n pat pat racc).
 
@@ -81,7 +81,7 @@ Fixpoint lz4_loop (fuel : nat) (b : bytes) (racc : bytes) : res bytes :=
         | Some (lits, b3) =>
           let racc1 := rev_append lits racc in
           match b3 with
-          | [] => Ok (rev racc1)                           (* last sequence: literals only *)
+          | [] => Ok (rev_append racc1 [])                          (* last sequence: literals only *)
           | _ =>
             match take_n 2 b3 with
             | None => Err ERR_LZ4
